@@ -174,6 +174,9 @@ def r01_hex(chk, rule="R01-hex"):
         found = True
         radix = [(bi, t) for bi, t in b.calls() if mir.strip_generics((t.get("res") or "").lstrip("?")).endswith("from_str_radix")]
         asp = [(bi, t) for bi, t in b.calls() if "AsPrimitive" in (t.get("res") or "") or (t.get("fn") or "").endswith("AsPrimitive::as_")]
+        # the conversion may sit in a closure of get_integer (`.map(|num_u64| (num_u64.as_(), true))`)
+        fam = [c for c in prog.bodies.values() if c.kind == "Closure" and c.parent and (c.parent == fid or c.parent.startswith(fid + "::"))]
+        asp_cl = [(c, bi, t) for c in fam for bi, t in c.calls() if "AsPrimitive" in (t.get("res") or "") or (t.get("fn") or "").endswith("AsPrimitive::as_")]
         n += 1
         if not radix:
             chk.add(Finding(rule, rule + "::noradix", "get_integer has no radix-16 parse for hex literals", b.where()))
@@ -188,7 +191,11 @@ def r01_hex(chk, rule="R01-hex"):
             c = mir.const_int(t["args"][1]) if len(t["args"]) > 1 else None
             if c != 16:
                 chk.add(Finding(rule, rule + "::radix", "hex literals are parsed with radix %s" % c, b.where(t["ln"])))
-        if not asp:
+        for c, bi, t in asp_cl:
+            # inside the closure nothing may reject the value after the reinterpretation either
+            if any("ParserError" in (t2.get("res") or "") for bj, t2 in c.calls()):
+                chk.add(Finding(rule, rule + "::reject-after-reinterpret", "get_integer constructs a ParserError in the closure that reinterprets the hex digits in the field's width", c.where(t["ln"])))
+        if not asp and not asp_cl:
             chk.add(Finding(rule, rule + "::reinterpret", "the parsed 64-bit pattern is not reinterpreted in the field's own width (AsPrimitive::as_)", b.where()))
         # once the digits parsed as u64 the value is accepted: no error is constructed after the reinterpretation
         succ = b.succ()
